@@ -54,6 +54,12 @@ CHECKS['C13'] = dict(level='fault_enumeration',
     note='Trusted: strace injection ((INJECTED) marks are counted); atomicity of rename(2) and durability are the kernel\'s.',
     design='DESIGN.md §2 C13')
 
+CHECKS['C14'] = dict(level='exploration',
+    technique='runtime monitoring of histories: exhaustive bounded enumeration of user-write/--replace/kill histories against the real binary with protocol invariants checked on the directory after every step',
+    text='All histories up to length 4 (quick) / 5 (thorough) over {4 user writes, --replace with config A/B, with/without --if-changed}, plus histories with one run killed by strace SIGKILL at every syscall of its window, are executed against the real binary; after each step the backup must hold the last user text whenever uncrustify changed the file, and the md5 file must describe the content left in the file. The shortest violating history is reported.',
+    note='Trusted: the invariants are the statement clauses; a byte-identical user write does not start a new epoch (DESIGN.md §4).',
+    design='DESIGN.md §2 C14')
+
 ALL = ['C%02d' % i for i in range(1, 21)]
 
 
